@@ -254,16 +254,151 @@ def _worker(job):
     return out
 
 
+def _worker_loop(conn, mem_bytes):
+    try:
+        import resource
+        resource.setrlimit(resource.RLIMIT_AS, (mem_bytes, mem_bytes))
+    except Exception:
+        pass
+    signal.signal(signal.SIGINT, signal.SIG_IGN)
+    while True:
+        try:
+            job = conn.recv()
+        except EOFError:
+            return
+        if job is None:
+            return
+        try:
+            out = _worker(job)
+        except MemoryError:
+            out = dict(harness=job[1], shape=job[2], status="inconclusive", stats=_zero_stats(),
+                       detail="memory limit exceeded", sources={}, stubs=[])
+        except BaseException as e:          # noqa: BLE001
+            out = dict(harness=job[1], shape=job[2], status="error", stats=_zero_stats(),
+                       detail="worker exception %s: %s" % (type(e).__name__, e), sources={}, stubs=[])
+        try:
+            conn.send(out)
+        except Exception:
+            return
+
+
+def _zero_stats():
+    return dict(paths=0, aborted=0, forks=0, queries=0, solver_s=0.0, obligations=0, discharged=0, trivial=0, max_trace=0)
+
+
 def run_pysym_grid(res, modname, jobs, chunks=1):
-    """jobs: list of (harness_name, shape).  Results folded into res (a Result)."""
+    """jobs: list of (harness_name, shape).  Own process pool: a worker that exceeds its wall-clock
+    budget (or dies, e.g. on the memory limit) is killed and replaced and its shape is reported
+    inconclusive -- a runaway shape can neither hang the check nor be counted as success."""
+    from multiprocessing.connection import wait
     jobs = [(modname, h, s) for h, s in jobs]
     if not jobs:
         return
     nproc = max(1, min(NPROC, len(jobs)))
     ctxm = multiprocessing.get_context("fork")
-    with ctxm.Pool(nproc, maxtasksperchild=200) as pool:
-        for out in pool.imap_unordered(_worker, jobs, chunksize=chunks):
-            fold(res, out)
+    mem = int(os.environ.get("VERIF_WORKER_MEM_GB", "6")) << 30
+    default_budget = int(os.environ.get("VERIF_SHAPE_BUDGET_S", "240"))
+    grace = 90
+    pending = list(reversed(jobs))
+    workers = {}        # conn -> dict(proc, job, t0, done)
+
+    def spawn():
+        pc, cc = ctxm.Pipe()
+        p = ctxm.Process(target=_worker_loop, args=(cc, mem), daemon=True)
+        p.start()
+        cc.close()
+        workers[pc] = dict(proc=p, job=None, t0=0.0, n=0)
+        return pc
+
+    def assign(pc):
+        w = workers[pc]
+        if not pending:
+            return False
+        if w['n'] >= 150:            # recycle long-lived workers (z3 memory)
+            retire(pc)
+            pc = spawn()
+            w = workers[pc]
+        job = pending.pop()
+        w['job'], w['t0'] = job, time.time()
+        w['n'] += 1
+        pc.send(job)
+        return True
+
+    def retire(pc):
+        w = workers.pop(pc)
+        try:
+            pc.send(None)
+        except Exception:
+            pass
+        try:
+            pc.close()
+        except Exception:
+            pass
+        w['proc'].join(timeout=0.2)
+        if w['proc'].is_alive():
+            w['proc'].terminate()
+
+    def kill(pc):
+        w = workers.pop(pc)
+        try:
+            w['proc'].kill()
+        except Exception:
+            pass
+        try:
+            pc.close()
+        except Exception:
+            pass
+        w['proc'].join(timeout=1)
+
+    for _ in range(nproc):
+        assign(spawn())
+    try:
+        while any(w['job'] is not None for w in workers.values()) or pending:
+            busy = [pc for pc, w in workers.items() if w['job'] is not None]
+            ready = wait(busy, timeout=1.0) if busy else []
+            for pc in ready:
+                w = workers[pc]
+                try:
+                    out = pc.recv()
+                except (EOFError, OSError):
+                    job = w['job']
+                    kill(pc)
+                    fold(res, dict(harness=job[1], shape=job[2], status="inconclusive", stats=_zero_stats(),
+                                   detail="worker process died (memory limit or crash)", sources={}, stubs=[]))
+                    assign(spawn())
+                    continue
+                w['job'] = None
+                fold(res, out)
+                if not assign(pc) and pc in workers:
+                    pass
+            now = time.time()
+            for pc in list(workers):
+                w = workers[pc]
+                if w['job'] is None:
+                    continue
+                try:
+                    import importlib
+                    hb = getattr(importlib.import_module(w['job'][0]).HARNESSES[w['job'][1]], 'budget_s', 0) or default_budget
+                except Exception:
+                    hb = default_budget
+                if now - w['t0'] > hb + grace:
+                    job = w['job']
+                    kill(pc)
+                    fold(res, dict(harness=job[1], shape=job[2], status="inconclusive", stats=_zero_stats(),
+                                   detail="hard wall-clock limit of %d s exceeded; worker killed" % (hb + grace),
+                                   sources={}, stubs=[]))
+                    assign(spawn())
+            # keep every idle worker fed
+            for pc in list(workers):
+                if workers[pc]['job'] is None and pending:
+                    assign(pc)
+    finally:
+        for pc in list(workers):
+            w = workers[pc]
+            if w['job'] is not None:
+                kill(pc)
+            else:
+                retire(pc)
 
 
 def fold(res, out):
